@@ -84,7 +84,7 @@ Record Div (i : N) (w w' : world) : Prop := {
   dv_nw : nw (w_mod w i) = nw (w_mod w' i);
   dv_inc : inc (w_mod w i) = inc (w_mod w' i);
   dv_bud : bud (w_mod w i) = bud (w_mod w' i);
-  dv_tp : tfin (w_mod w i) = tfin (w_mod w' i);
+  dv_tp : hnd (w_mod w i) = hnd (w_mod w' i);
   dv_catch : catchf (w_mod w i) = catchf (w_mod w' i);
   dv_ready : ready (w_mod w' i) = [];
   dv_shut : shut (w_mod w' i) = Some (match shut (w_mod w i) with Some r => r | None => None end) }.
@@ -111,10 +111,10 @@ Proof.
   - right. subst res1 res1' r1 r1'. cbn [fst snd]. split; [reflexivity|split; [reflexivity|]].
     destruct E3 as [[a b c0] _]. unfold quiet.
     destruct (shut (w_mod (x_w s2') i)) as [r|] eqn:Es; unfold request; cbn [say on_w x_w].
-    + constructor; cbn [w_buf w_mod set_mod]; rewrite ?N.eqb_refl; cbn [timers nw inc bud tfin catchf ready shut set_ready];
+    + constructor; cbn [w_buf w_mod set_mod]; rewrite ?N.eqb_refl; cbn [timers nw inc bud hnd catchf ready shut set_ready];
         rewrite ?a, ?Es; try reflexivity; try exact c0.
       intros j Hj. apply N.eqb_neq in Hj. rewrite Hj. apply b.
     + constructor; cbn [w_buf w_mod set_mod]; rewrite ?N.eqb_refl; cbn [w_mod set_mod]; rewrite ?N.eqb_refl;
-        cbn [timers nw inc bud tfin catchf ready shut set_ready set_shut]; rewrite ?a, ?Es; try reflexivity; try exact c0.
+        cbn [timers nw inc bud hnd catchf ready shut set_ready set_shut]; rewrite ?a, ?Es; try reflexivity; try exact c0.
       intros j Hj. apply N.eqb_neq in Hj. rewrite !Hj. apply b.
 Qed.
